@@ -774,6 +774,118 @@ func c20Few(t *core.T, kind string, plan []c20Placement) {
 	t.Sample(map[string]interface{}{"scenario": kind, "placements_run": len(plan), "exhaustive": false})
 }
 
+// c20ReadOnly: the store under the wallet database stops accepting writes while the wallet runs (every
+// commit from then on fails inside the wallet's own database layer); blocks keep arriving, an import or a
+// removal is asked for; the follower must go on consuming events, Stop must return with the database
+// closed, and after a restart (the store writable again) everything is caught up.
+func c20ReadOnly(t *core.T, n int) {
+	for i := 0; i < n && !t.Failed(); i++ {
+		t.Eval(1)
+		what := []string{"blocks", "import", "remove"}[i%3]
+		verdict, wit := c20ReadOnlyRun(t, what, t.R.Uint64(), filepath.Join(t.Dir, fmt.Sprintf("ro%d", i)))
+		if c20Report(t, "readonly-"+what, c20Placement{}, verdict, wit) {
+			t.Nontrivial("readonly|" + what)
+			t.Count("stops_after_the_store_went_read_only", 1)
+		}
+	}
+}
+
+func c20ReadOnlyRun(t *core.T, what string, seed uint64, dir string) (string, map[string]interface{}) {
+	sim.InitProcess(filepath.Join(filepath.Dir(t.Dir), "log"))
+	sim.ResetFatalEvents()
+	restoreConsensus()
+	consensus.CoinbaseMaturity = 3
+	defer restoreConsensus()
+	e := &c20Env{t: t, kind: "blocks", dir: dir}
+	wit := map[string]interface{}{"scenario": "readonly-" + what}
+	if err := e.setup(seed); err != nil {
+		if e.w != nil {
+			e.w.Stop(20 * time.Second)
+		}
+		if e.n != nil {
+			e.n.Close()
+		}
+		if strings.HasPrefix(err.Error(), "inconclusive") {
+			return err.Error(), wit
+		}
+		return "harness: " + err.Error(), wit
+	}
+	defer e.n.Close()
+	stalled := func(what string) string {
+		ok, sum, full := c20Structural()
+		wit["goroutines"] = sum
+		if ok {
+			wit["dump"] = full
+			return "violation:" + what
+		}
+		return "inconclusive: " + what + " (no structural deadlock in the goroutine dump)"
+	}
+	if err := e.deliver(2, -1); err != nil {
+		e.w.Stop(20 * time.Second)
+		return err.Error(), wit
+	}
+	if !e.w.Quiesce(60 * time.Second) {
+		e.w.Stop(20 * time.Second)
+		return "inconclusive: handler not idle before the store goes read-only", wit
+	}
+	if err := e.w.DB.MakeReadOnly(); err != nil {
+		e.w.Stop(20 * time.Second)
+		return "harness: " + err.Error(), wit
+	}
+	switch what {
+	case "import":
+		_, err := e.w.W.ImportWalletWithMnemonic(&keystore.WalletParams{Mnemonic: e.bMn, PrivatePassphrase: []byte(e.bPass), Remarks: "b", AddressGapLimit: e.gap})
+		wit["import_answer"] = fmt.Sprint(err)
+		if err == nil {
+			return "violation:write-accepted-on-read-only-store: ImportWalletWithMnemonic reported success although no write can reach the store", wit
+		}
+	case "remove":
+		err := e.w.W.RemoveWallet(e.a.ID, e.a.Pass)
+		wit["remove_answer"] = fmt.Sprint(err)
+		if err == nil {
+			return "violation:write-accepted-on-read-only-store: RemoveWallet reported success although no write can reach the store", wit
+		}
+	}
+	if err := e.deliver(3, 1); err != nil {
+		e.w.Stop(20 * time.Second)
+		return err.Error(), wit
+	}
+	// every announced tip is consumed (applying it fails: that is storage, not a deadlock)
+	if !e.w.Quiesce(40 * time.Second) {
+		if fe := sim.FatalEvents(); len(fe) > 0 {
+			e.w.Stop(5 * time.Second)
+			return "violation:follower-died: a wallet goroutine died: " + firstLineOf(fe[0]), wit
+		}
+		v := stalled("no-progress: the follower stops consuming announcements after a failed commit")
+		e.w.Stop(5 * time.Second)
+		return v, wit
+	}
+	if !e.w.Stop(25 * time.Second) {
+		return stalled("stop-never-returns: WalletManager.Stop did not return after commits had failed"), wit
+	}
+	if fe := sim.FatalEvents(); len(fe) > 0 {
+		return "violation:follower-died: a wallet goroutine died: " + firstLineOf(fe[0]), wit
+	}
+	w2, err := sim.OpenWallet(e.n, filepath.Join(e.dir, "wallet"), sim.NewConfig(e.gap))
+	if err != nil {
+		return "violation:db-not-closed: Stop returned but the wallet database cannot be opened again: " + err.Error(), wit
+	}
+	if err := w2.Start(); err != nil {
+		w2.CloseUnstarted()
+		return "violation:restart-fails: Start after the stop fails: " + err.Error(), wit
+	}
+	msg := e.waitConverged(w2, 60*time.Second)
+	if msg != "" {
+		v := stalled("no-progress-after-restart: " + msg)
+		w2.Stop(5 * time.Second)
+		return v, wit
+	}
+	if !w2.Stop(25 * time.Second) {
+		return stalled("stop-never-returns: WalletManager.Stop of the restarted idle wallet did not return"), wit
+	}
+	return "", wit
+}
+
 // c20Stress: Stop at a PRNG-chosen moment with random delays at all points and few processors.
 func c20Stress(t *core.T, n int) {
 	for i := 0; i < n && !t.Failed(); i++ {
@@ -826,12 +938,14 @@ func init() {
 				// a removal that needs several rounds (> 20 000 credits): progress between the rounds and
 				// a stop between them (the full enumeration of this scenario is in the thorough tier)
 				c20Few(t, "bigremove", []c20Placement{{point: "remove.round", k: 2, variant: "H"}, {point: "remove.round", k: 2, variant: "A"}, {point: "handle.suspended", k: 3, variant: "H"}})
+				c20ReadOnly(t, 3)
 			case !quick && t.Index == 13:
 				c20Placements(t, "crowd", max)
 			case !quick && t.Index == 7:
 				c20Placements(t, "longimport", 6)
 			case !quick && t.Index == 8:
 				c20Placements(t, "bigremove", 6)
+				c20ReadOnly(t, 12)
 			case !quick && t.Index >= 9 && t.Index < 13:
 				c20Placements(t, c20Kinds[t.Index-9], max)
 			default:
